@@ -35,3 +35,31 @@ Definition v_cap (c : cap) : val :=
   end.
 
 Definition v_caps (l : list cap) : val := VList v_cap l.
+
+(* ------------------------------------------------------------------------
+   The per-family result of PeerCodec::negotiate (packet/src/bgp.rs), used by
+   Model/Negotiate.v and, since the repair of finding C16-2, by the FSM's
+   send-max filter (Model/Fsm.v effective_max). *)
+
+Definition has_mp (caps : list cap) (f : N) : bool :=
+  existsb (fun c => match c with CMultiProtocol g => g =? f | _ => false end) caps.
+
+(* `fc.addpath = *mode` for every AddPath entry of a family that has a
+   MultiProtocol capability, in capability order: the last entry wins *)
+Definition addpath_mode (caps : list cap) (f : N) : N :=
+  fold_left (fun acc c =>
+               match c with
+               | CAddPath es => fold_left (fun acc e => if fst e =? f then snd e else acc) es acc
+               | _ => acc
+               end) caps 0.
+
+Definition bit (m b : N) : bool := negb (N.land m b =? 0).
+
+(* FamilyState {addpath_rx, addpath_tx} of a negotiated family, None otherwise *)
+Definition neg_family (l r : list cap) (f : N) : option (bool * bool) :=
+  if has_mp l f && has_mp r f then
+    let lm := addpath_mode l f in
+    let rm := addpath_mode r f in
+    Some (bit lm 1 && bit rm 2, bit lm 2 && bit rm 1)
+  else None.
+
